@@ -523,6 +523,10 @@ def check_batches(ctx):
     arg = ast.unparse(calls[0].args[0]).replace(" ", "") if calls[0].args else None
     ctx.ob("R13.4", TK + ".Circuit.get_counts:submitted-batch", arg == "(%s,)+%s" % (self_, others), found=arg, required="(self,) + others, in this order (counts[i] belongs to the i-th circuit)", mod=TK,
            node=calls[0], sig="batch-order")
+    cg = m.func("discopy.quantum.circuit.Circuit.get_counts")
+    rb = [r_ for r_ in cg.body if isinstance(r_, ast.Return)]
+    shape.match(ctx, "R13.4", "discopy.quantum.circuit.Circuit.get_counts:backend-result", rb[-1].value if rb else None, "counts if len(counts) > 1 else counts[0]", {}, mod="discopy.quantum.circuit", node=cg,
+                sig="get-counts-backend-result", required="the list of tables for a batch, the table itself for one circuit")
     # the eval side: results[i] built from counts[i] and circuits[i].post_processing
     ev = m.func("discopy.quantum.circuit.Circuit.eval")
     ctx.analysed("discopy.quantum.circuit.Circuit.eval")
